@@ -27,7 +27,7 @@ Open Scope Z_scope.
 Definition b2z (b : bool) : Z := if b then 1 else 0.
 
 (* value of a bit list, most significant bit first *)
-Fixpoint bits_val_acc (acc : Z) (l : list bool) : Z :=
+Fixpoint bits_val_acc (acc : Z) (l : list bool) {struct l} : Z :=
   match l with
   | [] => acc
   | b :: r => bits_val_acc (2 * acc + b2z b) r
@@ -66,7 +66,7 @@ Definition ctl_of_bits (bits : list bool) : list Z :=
   else 1 :: pack (bits ++ [true]).
 
 (* low/bitstr.Len *)
-Fixpoint pop_fuel (n : nat) (w : Z) : Z :=
+Fixpoint pop_fuel (n : nat) (w : Z) {struct n} : Z :=
   match n with
   | O => 0
   | S m => w mod 2 + pop_fuel m (w / 2)
@@ -84,7 +84,7 @@ Definition bitstr_bits (bs : list Z) : list bool :=
 (* ------------------------------------------------------------------ *)
 
 (* math/bits.TrailingZeros8 (8 for 0) *)
-Fixpoint tz_fuel (n : nat) (b : Z) : Z :=
+Fixpoint tz_fuel (n : nat) (b : Z) {struct n} : Z :=
   match n with
   | O => 0
   | S m => if Z.odd b then 0 else 1 + tz_fuel m (b / 2)
@@ -159,7 +159,7 @@ Definition step_new (stored : option Z) : Z :=
 Definition popcount64 (w : Z) : Z := pop_fuel 64 w.
 
 (* bitmap.IndexRank64: rank before every word *)
-Fixpoint offsets_from (acc : Z) (words : list Z) : list Z :=
+Fixpoint offsets_from (acc : Z) (words : list Z) {struct words} : list Z :=
   match words with
   | [] => []
   | w :: r => acc :: offsets_from (acc + popcount64 w) r
@@ -255,7 +255,7 @@ Record vlen := { va_n : Z; va_eltcnt : Z; va_fixed : Z;
                  va_words : list Z; va_rank : list Z; va_bytes : list Z }.
 
 (* bitmap.Of([0..n-1], n): ceil(n/64) words, the first n bits set *)
-Fixpoint full_words (k : nat) (n : Z) : list Z :=
+Fixpoint full_words (k : nat) (n : Z) {struct k} : list Z :=
   match k with
   | O => []
   | S m => (if 64 <=? n then Z.ones 64 else Z.ones n) :: full_words m (n - 64)
@@ -270,7 +270,7 @@ Definition fix_leaf (bytes : list Z) (size : Z) : res vlen :=
     Ok {| va_n := n; va_eltcnt := n; va_fixed := size;
           va_words := words; va_rank := offsets_true words; va_bytes := bytes |}.
 
-(* (*VLenArray).get for a fixed-size array (PositionBM == nil) *)
+(* VLenArray.get for a fixed-size array (PositionBM == nil) *)
 Definition vlen_get (va : vlen) (index : Z) : res (list Z) :=
   if va_n va <=? index then Err (EPanic 632)
   else
